@@ -436,6 +436,26 @@ let run_serve fields = match fields with
     String.concat ";" hs
   | _ -> failwith "serve: want 4 fields"
 
+
+(* ---- SSH listeners ---- *)
+let run_sshkey fields = match fields with
+  | [anon; listed] ->
+    (* keys as booleans: the presented key is "true"; the authorized list holds it iff listed *)
+    let auth = if anon = "1" then None else Some (if listed = "1" then [true] else [false]) in
+    if admits (fun a b -> a = b) auth true then "1" else "0"
+  | _ -> failwith "sshkey: want 2 fields"
+let run_sshexec fields = match fields with
+  | [perr; args; flags] ->
+    (match perr with
+     | "split" -> "refused"
+     | "empty" -> (match anon_exec (fun _ -> None) [] with DaemonProtocol -> "daemon-protocol" | Refused -> "refused")
+     | _ ->
+       let al = List.map string_of_hexstr (split ',' args) in
+       (* stage 2 (daemon option table) as observed on the implementation's parser *)
+       let stage = (fun _ -> if perr = "err" then None else Some (flags = "11")) in
+       (match anon_exec stage al with DaemonProtocol -> "daemon-protocol" | Refused -> "refused"))
+  | _ -> failwith "sshexec: want 3 fields"
+
 (* ---- option parser ---- *)
 let run_popt fields = match fields with
   | [argv] ->
@@ -563,6 +583,8 @@ let dispatch comp fields =
   | "decision" -> run_decision fields
   | "gensums" -> run_gensums fields
   | "genops" -> run_genops fields
+  | "sshkey" -> run_sshkey fields
+  | "sshexec" -> run_sshexec fields
   | "serve" -> run_serve fields
   | "daemonreq" -> run_daemonreq fields
   | "atomic" -> run_atomic fields
